@@ -136,7 +136,8 @@ func runC08(c *fw.Case) (o fw.Outcome) {
 			}
 		}
 		cut := present[r.Intn(len(present)-1)] // boundary: everything after optional IE "cut"
-		if r.Intn(len(present)) == 0 {
+		wrap16 := (c.Idx/4)%4 == 1 // by index: one aimed case in four aims at a multiple of 65536
+		if r.Intn(len(present)) == 0 || wrap16 && (c.Idx/16)%2 == 0 {
 			cut = -1 // everything after the mandatory part: what is left when the FIRST optional IE is examined
 		}
 		if last > cut {
@@ -148,8 +149,8 @@ func runC08(c *fw.Case) (o fw.Outcome) {
 				if r.Intn(3) == 0 {
 					delta += 256 * (1 + r.Intn(3))
 				}
-				if r.Intn(6) == 0 && suffix < 65536 { // ... or a multiple of 65536: counters narrowed to 16 bits
-					delta = 65536 + r.Intn(20) - 3 - suffix
+				if wrap16 && suffix < 65536 { // ... or a multiple of 65536: counters narrowed to 16 bits (offsets -2 .. +13 in turn)
+					delta = 65536 + (c.Idx/32)%16 - 2 - suffix
 					o.Tag("aimed-remainder-65536")
 				}
 				f := nv.Msg.Elem().Field(opts[last].Index).Elem()
